@@ -1,0 +1,19 @@
+//go:build verif
+
+// Hook for the C18 (finalisers and release) correspondence harness in /verif,
+// compiled only with the `verif` build tag: where (in which runtime context)
+// the runtime currently is.  Read-only.
+
+package runtime
+
+// VerifGCContextDepth returns the number of runtime contexts pushed on r (0 =
+// only the root context).  RuntimeContext.Parent() cannot be used for this
+// from outside the package: for the root context it returns a nil pointer
+// wrapped in a non-nil interface.
+func VerifGCContextDepth(r *Runtime) int {
+	n := 0
+	for m := r.runtimeContextManager.parent; m != nil; m = m.parent {
+		n++
+	}
+	return n
+}
